@@ -394,6 +394,10 @@ def _dispatch(item):
         return _reuse_job(job)
     if k == 'long':
         return _long_job(job)
+    if k == 'enrich':
+        # the pipeline's own entry point (enrich_with_transformations) for successive batches with different numeric column sets
+        from mc.checks.c11 import _enrich_sets
+        return _enrich_sets(job)
     if k == 'seqdiff':
         return _seqdiff(job)
     return {'cols': _cols_job, 'probe': _probe_job, 'rule': _rule_job, 'presets': _presets_job}[k](job)
@@ -420,6 +424,7 @@ def run(ctx):
     jobs.append(('seqdiff', None))
     jobs.append(('reuse', None))
     jobs.append(('long', None))
+    jobs.append(('enrich', None))
     for st in pmap(_dispatch, jobs):
         ctx.stats.merge(st)
     ctx.extra['fw_column_length'] = maxlen
@@ -432,6 +437,9 @@ def eval_case(case):
     st = Stats()
     if case['kind'] == 'seqdiff':
         return seqdiff.replay(seq_call, SEQ_MENU, case['seq'])
+    if case['kind'] == 'enrich_sets':
+        from mc.checks.c11 import _enrich_sets
+        return [v['what'] for v in _enrich_sets(None).violations]
     if case['kind'] == 'long':
         return [v['what'] for v in _long_job(None).violations if v['case']['preset'] == case['preset']]
     if case['kind'] == 'reuse':
